@@ -281,4 +281,50 @@ example : exK.c.closed = true ∧ exK.c.lost = false ∧ exK.c.buf = [] ∧ exK.
 example : (reach 2 exCfgC exCfgS ([.W .c 0 3, .D .s 99, .D .c 99, .D .s 99, .L .c, .D .s 99] ++ [.W .c 9 9, .W .s 1 1, .D .c 1]) 12).s.rcvd
     = [0, 1, 2, 100, 101] := by decide +kernel
 
+
+/-! ## writeSequence (step `S` of the harness)
+
+`TLSMemoryBIOProtocol.writeSequence(iovec)` is `self.write(b"".join(iovec))` and `BufferingTLSTransport.writeSequence(sequence)` is
+`self._aggregator.write(b"".join(sequence))` — the same call `write` makes.  A step `["S", side, start, [n1, n2, ...], mode]` of
+`harness/corr/C17.py` passes the contiguous chunks `seqChunks start [n1, n2, ...]` of one pattern; the line sent to the model is the
+single step `W side (start % 256) (n1 + n2 + ...)`.  The lemmas below justify that translation, so every theorem above (stated for
+arbitrary schedules of `W` steps) covers schedules containing writeSequence calls. -/
+
+/-- the chunks of an `S` step: contiguous pieces of one pattern -/
+def seqChunks (st : Nat) : List Nat → List Bytes
+  | [] => []
+  | n :: ns => pat st n :: seqChunks (st + n) ns
+
+theorem pat_append (st n1 n2 : Nat) : pat st n1 ++ pat (st + n1) n2 = pat st (n1 + n2) := by
+  simp only [pat, List.range_add, List.map_append, List.map_map]
+  congr 1
+  apply List.map_congr_left
+  intro i _
+  simp [Function.comp, Nat.add_assoc]
+
+theorem pat_zero (st : Nat) : pat st 0 = [] := by simp [pat]
+
+/-- joining the chunks of a writeSequence step gives the single pattern the model line writes -/
+theorem seqChunks_flatten (st : Nat) (ns : List Nat) : (seqChunks st ns).flatten = pat st ns.sum := by
+  induction ns generalizing st with
+  | nil => simp [seqChunks, pat_zero]
+  | cons n ns ih => simp only [seqChunks, List.flatten_cons, List.sum_cons, ih, pat_append]
+
+/-- `pat` only depends on the start value modulo 256 (the model line carries `start % 256`) -/
+theorem pat_mod (st n : Nat) : pat (st % 256) n = pat st n := by
+  simp only [pat]
+  apply List.map_congr_left
+  intro i _
+  congr 1
+  omega
+
+/-- the application's `transport.writeSequence(chunks)` (= `transport.write` of the joined chunks, with the same ghost bookkeeping)
+IS the step `W` of the joined pattern -/
+theorem writeSequence_step (w : World) (who : Who) (st : Nat) (ns : List Nat) :
+    w.set who ((w.get who).appWrite (seqChunks st ns).flatten) = w.step (.W who (st % 256) ns.sum) := by
+  simp only [World.step, seqChunks_flatten, pat_mod]
+
+example : seqChunks 250 [0, 3, 0, 4] = [[], [250, 251, 252], [], [253, 254, 255, 0]] := by decide
+example : (seqChunks 250 [0, 3, 0, 4]).flatten = pat 250 7 ∧ pat 250 7 ≠ [] := by decide
+
 end TwistedProps.C17
